@@ -293,7 +293,18 @@ func HarnessC03Empty() {
 	elseBody := []string{"", "<E>"}[vChoice("else-body", 2)]
 	var head string
 	data := map[string]any{"n": n}
-	if vChoice("loop", 2) == 0 {
+	loopKind := vChoice("loop", 4)
+	if loopKind == 2 || loopKind == 3 {
+		// an array that reaches the loop as a never-allocated Go slice (in the data map / in a struct field)
+		vAssume(n == 0)
+		if loopKind == 2 {
+			data["xs"] = []int(nil)
+			head = "@each(v in xs)"
+		} else {
+			data["u"] = struct{ Tags []string }{}
+			head = "@each(v in u.tags)"
+		}
+	} else if loopKind == 0 {
 		xs := make([]any, n)
 		for i := range xs {
 			xs[i] = i
